@@ -224,6 +224,15 @@ class SolverState(object):
                 seg = ys[min(self.seg_from, len(ys)):] if self.objective_changes else ys
                 self.expect(all(not (seg[i + 1] > seg[i]) for i in range(len(seg) - 1)), 'C04.stepmon',
                             lambda: dict(where=where, y=seg, note='step monitor energies increase', solver=self.kind))
+                # one (best x, best energy) record per generation: record g is the best the callback saw at generation g
+                # (not for Powell: it finalises a generation's record after the extrapolation step of the next
+                # iteration, so the logged best of generation g is legitimately better than what the callback saw)
+                if self.kind != 'PW' and n == len(self.callbacks) and not self.objective_changes and not self.moved_by_ranges:
+                    bad = [g for g in range(n) if lab.fvec(sm.x[g]) != self.callbacks[g][1]]
+                    self.expect(not bad, 'C04.stepmon',
+                                lambda: dict(where=where, generation=bad[0], record=lab.fvec(sm.x[bad[0]]),
+                                             best_then=self.callbacks[bad[0]][1], solver=self.kind,
+                                             note='step monitor record is not the best solution of its generation'))
                 lastx = lab.fvec(sm.x[-1]); lasty = ys[-1]
                 if self.moved_by_ranges or not math.isfinite(float(s.bestEnergy)):
                     self.ctx.exclude('stepmon-last-after-ranges-moved-members-or-no-finite-energy')
